@@ -330,7 +330,7 @@ func loggerPart(r *seq.Run, tier string) {
 		kind string
 		lvl  zerolog.Level
 	}
-	ops := []op{{"ev", zerolog.DebugLevel}, {"ev", zerolog.InfoLevel}, {"ev", zerolog.ErrorLevel}, {"dis", 0}, {"glob", zerolog.InfoLevel}, {"glob", zerolog.TraceLevel}, {"tick", 0}}
+	ops := []op{{"ev", zerolog.DebugLevel}, {"ev", zerolog.InfoLevel}, {"ev", zerolog.ErrorLevel}, {"ev", zerolog.Disabled}, {"ev", zerolog.NoLevel}, {"dis", 0}, {"glob", zerolog.InfoLevel}, {"glob", zerolog.TraceLevel}, {"tick", 0}}
 	L := 5
 	if tier == "thorough" {
 		L = 7
@@ -358,7 +358,8 @@ func loggerPart(r *seq.Run, tier string) {
 						tag := fmt.Sprintf("e%d", i)
 						hist = append(hist, fmt.Sprintf("%v(%s)", o.lvl, tag))
 						lg.WithLevel(o.lvl).Str("t", tag).Send()
-						if o.lvl >= loggerLevel && o.lvl >= glob {
+						// WithLevel(Disabled) is never written and, like every event the gate rejects, costs no budget
+						if o.lvl != zerolog.Disabled && o.lvl >= loggerLevel && o.lvl >= glob {
 							if disabled || m.sample(o.lvl, clock) {
 								want = append(want, tag)
 							}
